@@ -275,7 +275,7 @@ Proof.
     apply Same; solve [reflexivity|left; reflexivity|left; symmetry; exact Eh|left; exact Eh].
   - destruct (holds_any (g s) p); [|discriminate]. inversion He; subst; clear He. apply Same; solve [reflexivity|left; reflexivity].
   - destruct (holds_w (g s) p); [|discriminate]. inversion He; subst; clear He. apply Same; solve [reflexivity|left; reflexivity].
-  - inversion He; subst; clear He. apply Same; solve [reflexivity|left; reflexivity].
+  - destruct (holds_any (g s) p); [|discriminate]. inversion He; subst; clear He. apply Same; solve [reflexivity|left; reflexivity].
 Qed.
 
 Lemma lk_req x p : holds_r x p = false -> lock_ok (set_lock x (Some p) false (rdh x)) p SAnn.
@@ -696,3 +696,11 @@ Proof. vm_compute. reflexivity. Qed.
 
 Lemma run_reachable v ls s : run v init ls = Some s -> reachable v s.
 Proof. apply reachable_run. constructor. Qed.
+
+Lemma close_no_lock_race :
+  match run CloseNoLock init [LSpawn OpClose; LStep 0] with
+  | Some s => panic s = Some PRace
+  | None => False
+  end.
+Proof. vm_compute. reflexivity. Qed.
+
